@@ -256,7 +256,7 @@ def check_prov(ctx):
                 else:
                     ctx.violate(R, call, label, "generator `%s` has provenance %s, not the rng handed to the sampler" % (A.unparse(recv), sorted(tags)),
                                 key="prov:%s:%s" % (q, call.func.attr if isinstance(call.func, ast.Attribute) else "draw"))
-    ctx.floor(R, n, 11)
+    ctx.floor(R, n, 10)   # (11 on the tree the rule was written for: the duplicated pymc-version branch counts once)
     # fresh generators anywhere else
     R2 = "C10-FRESH"
     ctx.rule(R2, "no generator is constructed from nothing or from a constant seed anywhere in the package except the two documented `rng is None` fall-backs.")
